@@ -161,7 +161,7 @@ fn explore_iff(opts: &Opts) -> Local {
 
 pub fn explore(opts: &Opts) -> Explored {
     let local = explore_iff(opts);
-    let _ = (Program { leaves: vec![], nodes: vec![] }, RErr::Refuse);
+    let _ = (Program { leaves: vec![], nodes: vec![], retrack: Vec::new() }, RErr::Refuse);
     Explored {
         local,
         bounds: json!({"iff_rule_operation_instances": iff_ops().len(), "operand_masks": "all 2^arity"}),
